@@ -609,7 +609,11 @@ class Gen:
         inits += [{"k": "stmt", "code": f"bj_{k} = 0", "comment": None} for k in range(1, getattr(self, "nbj", 0) + 1)]
         inits += [{"k": "stmt", "code": f"{nm} = 0", "comment": None} for nm in getattr(self, "ibs", [])]
         passages[0]["items"] = inits + passages[0]["items"]
-        return {"passages": passages, "cycles": self.cycles}
+        st = {"passages": passages, "cycles": self.cycles}
+        if self.p("imports"):
+            # top-of-file Python imports (real-compiler-only families: the reference compilation does not carry them)
+            st["imports"] = r.sample(["import math", "from random import choice", "import json as js", "from math import floor, ceil"], r.randint(1, 3))
+        return st
 
 
 # ---------------------------------------------------------------------- printer
@@ -740,6 +744,13 @@ def print_story(story, style=None):
     out = []
     if style.get("top_comment"):
         out += ["# a story", "", "# by nobody"]
+    r_ = style.get("rng")
+    for k_, imp in enumerate(story.get("imports", [])):
+        if r_ is not None and k_ > 0 and r_.random() < style.get("comment_lines", 0):
+            out += r_.choice([["# helpers"], ["", "# more"], ["# import nothing"]])
+        out.append(imp)
+    if story.get("imports"):
+        out.append("")
     for p in story["passages"]:
         head = ":: " + p["name"]
         if p["params"]:
